@@ -25,6 +25,7 @@ import (
 	"path/filepath"
 	"sort"
 	"strings"
+	"time"
 	"unicode/utf8"
 
 	"github.com/itchyny/gojq"
@@ -49,14 +50,15 @@ func main() {
 	}
 	defer os.RemoveAll(tmpDir)
 
-	streamLineinfo()
-	streamTrimFmt()
-	streamWindowSeekable()
-	streamQerr()
-	oracleJSON()
-	oracleStreamMode()
-	oracleQuery()
-	yamlChecks()
+	for _, sec := range []struct {
+		name string
+		f    func()
+	}{{"lineinfo", streamLineinfo}, {"trim+fmt", streamTrimFmt}, {"window+seekable", streamWindowSeekable}, {"qerr", streamQerr},
+		{"oracle json", oracleJSON}, {"oracle --stream", oracleStreamMode}, {"oracle query", oracleQuery}, {"yaml", yamlChecks}} {
+		t0 := time.Now()
+		sec.f()
+		ctx.Res.Notes = append(ctx.Res.Notes, fmt.Sprintf("section %s: %.1fs", sec.name, time.Since(t0).Seconds()))
+	}
 
 	if len(widthMismatch) > 0 {
 		ctx.Errorf("width parameter: runewidth.StringWidth differs from the table Σ w17 on %d strings, e.g. %s", len(widthMismatch), strings.Join(widthMismatch, "; "))
@@ -259,7 +261,7 @@ func streamWindowSeekable() {
 	r := ctx.R.Fork(3)
 	var wl, wi, sl, si []string
 	nBase := ctx.N(7, 40)
-	perBase := ctx.N(36, 120)
+	perBase := ctx.N(30, 120)
 	for b := 0; b < nBase; b++ {
 		o := streamOpts{total: r.Range(18000, 52000), eol: common.Pick(r, []string{"\n", "\r\n"}), style: b % 4}
 		if o.style == 2 {
@@ -545,6 +547,18 @@ func readAheadClass(inp []byte, sizes []int, ref refResult, f int) bool {
 	return false
 }
 
+// firstUnconsumed: the 1-based offset whose loss makes the report wrong — the faulty byte, or for
+// a truncated input the first byte after the last complete value (the incomplete value's text).
+func firstUnconsumed(ref refResult, p int, eof bool) int {
+	if !eof {
+		return p + 1
+	}
+	if len(ref.ends) == 0 {
+		return 1
+	}
+	return int(ref.ends[len(ref.ends)-1]) + 1
+}
+
 type jsonCase struct {
 	inp  []byte
 	tr   transport
@@ -597,7 +611,9 @@ func checkJSONCase(orc *common.Oracle, c jsonCase, distinct map[string]bool) {
 		// only the line number is short, by no more than the lone CRs before the fault: the window /
 		// re-read bookkeeping counts '\n' only while getLineByOffset also ends lines at a lone '\r'
 		key = "lone-cr-window-linecount"
-	case c.tr.name == "script" && readAheadClass(c.inp, c.tr.sizes, ref, p+1):
+	case (c.tr.name == "script" || c.tr.name == "os-pipe") && readAheadClass(c.inp, c.tr.sizes, ref, firstUnconsumed(ref, p, eof)):
+		// (for an os.Pipe the read sizes are not observable: the writer hands over everything at once,
+		// so the reader that returns as much as it is asked for stands in for it)
 		key = "window-readahead-reset"
 	case bytes.Contains(c.inp[:min(p, len(c.inp))], []byte("\ufffd")) && ufffdClass(rep, c.inp, p):
 		key = "lineinfo:ufffd-before-fault"
@@ -635,6 +651,20 @@ func oracleJSON() {
 	r := ctx.R.Fork(5)
 	distinct := map[string]bool{}
 	transports := []transport{{"file", nil}, {"stdin-file", nil}, {"os-pipe", nil}, {"script", nil}, {"script", []int{4096}}, {"script", []int{1}}, {"script", []int{1000, 7, 3000, 1}}}
+	// (0) the replays quoted for D8 and for the lone-CR line count
+	for _, eol := range []string{"\n", "\r\n", "\r"} {
+		var sb strings.Builder
+		for k := 0; k < 4000; k++ {
+			if k == 1450 {
+				sb.WriteString("{\"i\": 1450,}" + eol)
+			} else {
+				fmt.Fprintf(&sb, "{\"i\": %d}%s", k, eol)
+			}
+		}
+		for _, tr := range transports[:5] {
+			checkJSONCase(orc, jsonCase{[]byte(sb.String()), tr, eol, "d8-replay", "insert", 0}, distinct)
+		}
+	}
 	// (1) small streams: every position × every kind
 	nSmall := ctx.N(3, 12)
 	for i := 0; i < nSmall; i++ {
@@ -675,7 +705,7 @@ func oracleJSON() {
 				continue // one byte per read: small inputs only
 			}
 			var ts []int
-			stride := ctx.N(16, 4)
+			stride := ctx.N(32, 4)
 			for m := winSize; m < len(base)+winSize; m += winSize {
 				for d := -64; d <= 64; d += stride {
 					ts = append(ts, m+d+ti%stride)
@@ -702,20 +732,6 @@ func oracleJSON() {
 				}
 				checkJSONCase(orc, jsonCase{inp, tr, eol, fmt.Sprintf("large-style%d", o.style), kind, t}, distinct)
 			}
-		}
-	}
-	// (3) the D8 replay itself
-	{
-		var sb strings.Builder
-		for k := 0; k < 4000; k++ {
-			if k == 1450 {
-				sb.WriteString("{\"i\": 1450,}\n")
-			} else {
-				fmt.Fprintf(&sb, "{\"i\": %d}\n", k)
-			}
-		}
-		for _, tr := range transports[:5] {
-			checkJSONCase(orc, jsonCase{[]byte(sb.String()), tr, "\n", "d8-replay", "insert", 0}, distinct)
 		}
 	}
 	orc.Distinct = len(distinct)
@@ -832,7 +848,9 @@ func oracleQuery() {
 	qs := append(corpusQueries(), baseQueries...)
 	lib.Distribution["base-queries"] = len(qs)
 	dl, dc := map[string]bool{}, map[string]bool{}
-	var muts []string
+	// fixed cases first (they are the replays quoted for the known defect classes)
+	muts := []string{"12345 \"\\(2)\"", "1 \"a\\(2)\"", ".[]\"\\([]", ". | \xff", "\"abc \\(1", "\"abc \\(1 +", "\"abc", ". |\n \"abc \\(1) def\n  ghi", "\"a\\(1)\" \"b\"", "\"a\\(1 2)\"", "\"a\\(1)\\q\"",
+		".a |\r\n .b \"x\\(1)\"", "[.[] |\n  \"\u6f22\u00e9\\(.x)\u6f22\" \"y\\(2)\"]"}
 	// every position of the hand-written multi-line queries with a few bytes; random for the corpus
 	for _, q := range baseQueries {
 		for i := 0; i <= len(q); i++ {
@@ -847,8 +865,6 @@ func oracleQuery() {
 			}
 		}
 	}
-	muts = append(muts, "1 \"a\\(2)\"", "12345 \"\\(2)\"", "\"abc \\(1", "\"abc \\(1 +", "\"abc", ". |\n \"abc \\(1) def\n  ghi", "\"a\\(1)\" \"b\"", "\"a\\(1 2)\"", "\"a\\(1)\\q\"",
-		".a |\r\n .b \"x\\(1)\"", "[.[] |\n  \"\u6f22\u00e9\\(.x)\u6f22\" \"y\\(2)\"]")
 	perQ := ctx.N(40, 600)
 	for _, q := range qs {
 		for j := 0; j < perQ; j++ {
